@@ -4,7 +4,6 @@
 //! with a closed form written here independently of src/prefix.rs.
 #![allow(dead_code, unused_macros, unused_imports)]
 
-#[cfg(kani)]
-mod algebra;
+pub mod algebra;
 #[cfg(kani)]
 mod bounded;
